@@ -260,6 +260,34 @@ pub fn c07(tier: &str) -> i32 {
         alpha.push(Op::Rollback(1));
         searches.push(mk_search("C07", "m(a,b) UNIQUE(a,b)", Cfg::default(), prefix, alpha, if quick { 5 } else { 7 }, if quick { 60_000 } else { 2_000_000 }, |_| {}));
     }
+    // D: NOT NULL columns under UPDATE (no unique index, so UPDATE is judged): every assignment of NULL / of a value that
+    // some neighbouring column of the same row already holds
+    {
+        let def = TableDef::simple("n", &[("a", ColTy::Int), ("b", ColTy::Int), ("c", ColTy::Int)]).with_not_null("b").with_not_null("c");
+        let row = |a: Val, b: Val, c: Val| Stmt::Insert { table: "n".into(), rows: vec![vec![a, b, c]] };
+        let upd = |col: &str, v: Val, pred: Option<(&str, i128)>| Stmt::Update { table: "n".into(), set: vec![(col.into(), v)], pred: pred.map(|(c, k)| (c.to_string(), i(k))) };
+        let prefix = vec![Op::Auto(Stmt::CreateTable(def)), Op::Auto(row(Val::Null, i(1), i(2))), Op::Auto(row(i(5), i(5), i(7)))];
+        let mut alpha = vec![
+            Op::Auto(upd("b", Val::Null, None)),
+            Op::Auto(upd("b", Val::Null, Some(("c", 2)))),
+            Op::Auto(upd("c", Val::Null, Some(("b", 5)))),
+            Op::Auto(upd("c", Val::Null, Some(("b", 1)))),
+            Op::Auto(upd("a", Val::Null, Some(("b", 5)))),
+            Op::Auto(upd("b", i(7), Some(("b", 5)))),
+            Op::Auto(upd("c", i(5), Some(("b", 5)))),
+            Op::Auto(upd("a", i(1), Some(("b", 1)))),
+            Op::Auto(row(i(3), Val::Null, i(3))),
+            Op::Auto(row(Val::Null, i(3), Val::Null)),
+            Op::Auto(row(Val::Null, i(4), i(4))),
+            Op::Auto(Stmt::Delete { table: "n".into(), pred: Some(("b".into(), i(1))) }),
+        ];
+        alpha.push(Op::Begin(1));
+        alpha.push(Op::In(1, upd("c", Val::Null, Some(("b", 1)))));
+        alpha.push(Op::In(1, row(Val::Null, i(6), i(6))));
+        alpha.push(Op::Commit(1));
+        alpha.push(Op::Rollback(1));
+        searches.push(mk_search("C07", "n(a, b NOT NULL, c NOT NULL) without a unique index: UPDATE to NULL / to a neighbouring column's value, by several predicates; inserts with NULLs", Cfg::default(), prefix, alpha, if quick { 4 } else { 6 }, if quick { 60_000 } else { 2_000_000 }, |_| {}));
+    }
     run_searches(
         "C07",
         tier,
